@@ -136,7 +136,14 @@ func c03CLI(e *c03Env, rnd *vh.Rand) error {
 	for rep := 0; rep < reps; rep++ {
 		for _, cmd := range []string{"extract", "cat", "untar"} {
 			for _, unc := range []bool{false, true} {
-				for _, plant := range plants {
+				use := plants
+				if e.a.Tier != "thorough" { // quick: the same-size foreign chunk, the intact store, five more kinds
+					use = []string{"other-same-size", "good"}
+					for len(use) < 7 {
+						use = append(use, plants[rnd.Intn(len(plants)-1)])
+					}
+				}
+				for _, plant := range use {
 					where := "store"
 					switch rnd.Intn(6) {
 					case 0:
